@@ -319,6 +319,9 @@ class Gen:
                 add("contract", "index")
             if free:
                 add("indexfree", "index", 2)
+                add("zerobranch", "zerofree", 2)
+            if len(self.names) >= 2:
+                add("fixedct", "zerofree", 2)
             if "capture" in O and len(self.names) >= 3:
                 opts.extend(["capture"] * W.get("capture", 2))
             if not free:
@@ -503,6 +506,25 @@ class Gen:
             rest = [n for n in free if n not in take]
             perm = list(self.draw(st.permutations(take)))
             return ["index", e((g,) * len(take), rest, d), perm]
+        if op == "fixedct":
+            # a component tensor over a body with a zero branch, indexed by fixed (or partly fixed) indices:
+            # every free index of the Zero is replaced by a fixed one
+            un = self.unused(free)
+            if not un:
+                return self.leaf(shape, free)
+            names = list(self.draw(st.permutations(un)))[: self.pick([1, 2]) if len(un) >= 2 else 1]
+            z = ["mul", ["lit", 0], self.leaf((), tuple(names))]
+            other = e((), tuple(sorted(set(free) | set(names))), min(d, 1))
+            c = [self.pick(["lt", "gt"]), e((), (), 0), e((), (), 0)]
+            body = ["cond", c, z, other] if self.chance(1, 2) else ["cond", c, other, z]
+            ct = ["as_tensor", body, names]
+            return ["index", ct, [self.draw(st.integers(0, g - 1)) for _ in names]]
+        if op == "zerobranch":
+            # a Zero that carries the free indices, kept alive in a branch of a conditional
+            z = ["mul", ["lit", 0], e((), free, min(d, 1))]
+            other = e((), free, d)
+            c = [self.pick(["lt", "gt"]), e((), (), 0), e((), (), 0)]
+            return ["cond", c, z, other] if self.chance(1, 2) else ["cond", c, other, z]
         if op == "capture":
             # a component tensor whose body *binds* r (a contraction), indexed from outside by the same index r:
             # as_tensor(A[r, j] * B[r], (j,))[r]  -- r then is either free outside or summed again
